@@ -26,6 +26,8 @@ CONSTANTS
   DedupSigners,  \* TRUE: CheckMajor23 counts a signer once  (FALSE: once per entry, before 73670c0)
   DirectOpen,    \* FALSE: 0xfe accepts only the Admin contract (TRUE: any caller, `from` from payload, before 6bcf04f)
   QueryOpen,     \* FALSE: queries cannot reach the plugin    (TRUE: they stage changes, before bfdbd89)
+  QueryTouches,  \* FALSE: a query returns before it touches the process-wide precompile object (run() at HEAD)
+                 \* TRUE:  it first stores ITS state copy and caller there (SetState/SetCaller above the NoAdminOP check)
   TallyOnly      \* TRUE: only Check actions (exhaustive signature-list configurations)
 
 Absent == -1
@@ -33,16 +35,18 @@ Absent == -1
 VARIABLES
   vals,     \* [Nodes -> Int]   validator set in force for the block being built (canonical execution)
   pend,     \* Seq([cmd, tgt, pw])  AdminOp.ChangedValidators of the canonical execution
+  blk,      \* Seq([c, s])  per transaction of the block being built: the change it stages (c) and the change it would
+            \*              stage were its sender/nonce read from the last COMMITTED state (s) -- NoCh if none
   nonce,    \* [Accounts -> Nat]    account nonces of the canonical execution
   open,     \* number of transactions in the block being built
   ntx,      \* transactions + queries so far (bound)
-  chain,    \* Seq([pend, vals, nonce, ok])  closed blocks: staged changes, resulting NEXT set, nonces, EndBlock ok
+  chain,    \* Seq([pend, blk, vals, nonce, ok])  closed blocks: staged changes, resulting NEXT set, nonces, EndBlock ok
   halted,   \* a block failed in EndBlock; the chain cannot advance
   rep,      \* [Replicas -> [h, vals, extra]]  height, validator set for height h+1, changes staged outside blocks
   last      \* output only: the last action and its reply
 
-vars == <<vals, pend, nonce, open, ntx, chain, halted, rep, last>>
-view == <<vals, pend, nonce, open, ntx, chain, halted, rep>>
+vars == <<vals, pend, blk, nonce, open, ntx, chain, halted, rep, last>>
+view == <<vals, pend, blk, nonce, open, ntx, chain, halted, rep>>
 
 --------------------------------------------------------------------------------------
 (* signature tally *)
@@ -88,6 +92,7 @@ Result(v, nn, b, sl, route, snd) ==
             [] OTHER            -> "rejCmd"
 
 Change(b) == [cmd |-> b.cmd, tgt |-> b.tgt, pw |-> b.pw]
+NoCh      == [cmd |-> "none", tgt |-> 0, pw |-> 0]
 
 (* AdminOp.updateValidators on the copy of the set that becomes the next one *)
 RECURSIVE ApplyP(_, _)
@@ -102,7 +107,7 @@ ApplyP(v, p) ==
 --------------------------------------------------------------------------------------
 Init ==
   /\ vals = InitPower
-  /\ pend = <<>>
+  /\ pend = <<>> /\ blk = <<>>
   /\ nonce = [a \in Accounts |-> 0]
   /\ open = 0 /\ ntx = 0
   /\ chain = <<>>
@@ -115,6 +120,12 @@ Tx(b, sl, route, snd, res) ==
   /\ ~TallyOnly /\ ~halted /\ ntx < MaxTx /\ Len(chain) < MaxBlocks
   /\ res = Result(vals, nonce, b, sl, route, snd)
   /\ pend' = IF res = "ok" THEN Append(pend, Change(b)) ELSE pend
+  /\ LET \* the account nonces of the last committed state (what a concurrent query's state copy holds)
+         nonce0 == IF chain = <<>> THEN [a \in Accounts |-> 0] ELSE chain[Len(chain)].nonce
+         \* a query with a direct call has an EOA as caller: the precompile still refuses; through the Admin
+         \* contract the sender is right and only the nonce is read from the other state
+         stale  == IF route = "contract" THEN Result(vals, nonce0, b, sl, route, snd) ELSE res
+     IN blk' = Append(blk, [c |-> IF res = "ok" THEN Change(b) ELSE NoCh, s |-> IF stale = "ok" THEN Change(b) ELSE NoCh])
   /\ nonce' = [nonce EXCEPT ![snd] = @ + 1]          \* the Ethereum transaction itself is valid and consumes a nonce
   /\ open' = open + 1 /\ ntx' = ntx + 1
   /\ last' = [op |-> "Tx", b |-> b, sl |-> sl, route |-> route, snd |-> snd, res |-> res]
@@ -125,16 +136,17 @@ Resend(snd) ==
   /\ ~TallyOnly /\ ~halted /\ ntx < MaxTx /\ Len(chain) < MaxBlocks
   /\ nonce[snd] > 0
   /\ open' = open + 1 /\ ntx' = ntx + 1
+  /\ blk' = Append(blk, [c |-> NoCh, s |-> NoCh])
   /\ last' = [op |-> "Resend", snd |-> snd]
   /\ UNCHANGED <<vals, pend, nonce, chain, halted, rep>>
 
 CloseBlock ==
   /\ ~TallyOnly /\ ~halted /\ open > 0
   /\ LET r == ApplyP(vals, pend) IN
-       /\ chain' = Append(chain, [pend |-> pend, vals |-> r.vals, nonce |-> nonce, ok |-> r.ok])
+       /\ chain' = Append(chain, [pend |-> pend, blk |-> blk, vals |-> r.vals, nonce |-> nonce, ok |-> r.ok])
        /\ vals' = r.vals
        /\ halted' = ~r.ok
-  /\ pend' = <<>> /\ open' = 0
+  /\ pend' = <<>> /\ blk' = <<>> /\ open' = 0
   /\ last' = [op |-> "CloseBlock"]
   /\ UNCHANGED <<nonce, ntx, rep>>
 
@@ -147,7 +159,24 @@ Exec(r, out) ==
         /\ rep' = IF res.ok THEN [rep EXCEPT ![r] = [h |-> k, vals |-> res.vals, extra |-> <<>>]]
                            ELSE [rep EXCEPT ![r].extra = <<>>]              \* plugin Reset() is deferred
   /\ last' = [op |-> "Exec", r |-> r, out |-> out]
-  /\ UNCHANGED <<vals, pend, nonce, open, ntx, chain, halted>>
+  /\ UNCHANGED <<vals, pend, blk, nonce, open, ntx, chain, halted>>
+
+(* replica r executes its next block while, on another goroutine of the same process, a read-only contract    *)
+(* query carrying transaction i's own bytes reaches the 0xfe precompile exactly between run()'s                 *)
+(* SetState/SetCaller for transaction i and AdminOP.Run reading them back (vm.DefaultAdminContract is one       *)
+(* object per process).  At HEAD the query returns before it touches the object: the step equals Exec.        *)
+Staged(b, i) == LET pick(j) == IF QueryTouches /\ j = i THEN b[j].s ELSE b[j].c
+                IN SelectSeq([j \in 1..Len(b) |-> pick(j)], LAMBDA c : c # NoCh)
+ExecQ(r, i, out) ==
+  /\ ~TallyOnly /\ rep[r].h < Len(chain) /\ rep[r].h > 0
+  /\ i \in 1..Len(chain[rep[r].h + 1].blk)
+  /\ LET k   == rep[r].h + 1
+         res == ApplyP(rep[r].vals, rep[r].extra \o Staged(chain[k].blk, i))
+     IN /\ out = IF res.ok THEN "ok" ELSE "endBlockError"
+        /\ rep' = IF res.ok THEN [rep EXCEPT ![r] = [h |-> k, vals |-> res.vals, extra |-> <<>>]]
+                           ELSE [rep EXCEPT ![r].extra = <<>>]
+  /\ last' = [op |-> "ExecQ", r |-> r, i |-> i, out |-> out]
+  /\ UNCHANGED <<vals, pend, blk, nonce, open, ntx, chain, halted>>
 
 (* a read-only contract query with the same payload, on replica r only *)
 Query(r, b, sl, snd, res) ==
@@ -157,14 +186,14 @@ Query(r, b, sl, snd, res) ==
   /\ rep' = IF res = "ok" THEN [rep EXCEPT ![r].extra = Append(@, Change(b))] ELSE rep
   /\ ntx' = ntx + 1
   /\ last' = [op |-> "Query", r |-> r, b |-> b, sl |-> sl, snd |-> snd, res |-> res]
-  /\ UNCHANGED <<vals, pend, nonce, open, chain, halted>>
+  /\ UNCHANGED <<vals, pend, blk, nonce, open, chain, halted>>
 
 (* CheckMajor23 alone *)
 Check(sl, r) ==
   /\ TallyOnly
   /\ r = Major23(vals, sl)
   /\ last' = [op |-> "Check", sl |-> sl, r |-> r]
-  /\ UNCHANGED <<vals, pend, nonce, open, ntx, chain, halted, rep>>
+  /\ UNCHANGED <<vals, pend, blk, nonce, open, ntx, chain, halted, rep>>
 
 Results == {"ok", "noop", "rejRoute", "rejAuth", "rejType", "rejFrom", "rejNonce", "rejSelf", "rejMember", "rejCmd", "rejQuery"}
 
@@ -175,6 +204,7 @@ Next ==
   \/ \E snd \in Accounts : Resend(snd)
   \/ CloseBlock
   \/ \E r \in Replicas, out \in {"ok", "endBlockError"} : Exec(r, out)
+  \/ \E r \in Replicas, i \in 1..MaxTx, out \in {"ok", "endBlockError"} : ExecQ(r, i, out)
   \/ \E r \in Replicas, b \in Bodies, sl \in SigLists, snd \in Accounts, res \in Results : Query(r, b, sl, snd, res)
   \/ \E sl \in SigLists, r \in BOOLEAN : Check(sl, r)
 
@@ -186,6 +216,7 @@ NextFast ==
   \/ \E snd \in Accounts : Resend(snd)
   \/ CloseBlock
   \/ \E r \in Replicas, out \in {"ok", "endBlockError"} : Exec(r, out)
+  \/ \E r \in Replicas, i \in 1..MaxTx, out \in {"ok", "endBlockError"} : ExecQ(r, i, out)
   \/ \E r \in Replicas, b \in Bodies, sl \in SigLists, snd \in Accounts :
         /\ rep[r].h > 0
         /\ Query(r, b, sl, snd, IF QueryOpen THEN Result(rep[r].vals, chain[rep[r].h].nonce, b, sl, "contract", snd) ELSE "rejQuery")
@@ -232,6 +263,15 @@ NoSideChannel ==
   [][ last'.op \in {"Resend", "Query", "Check"} =>
         /\ UNCHANGED <<vals, pend, nonce>>
         /\ \A r \in Replicas : rep'[r].extra = <<>> ]_vars
+
+\* the outcome of executing a block -- which requests are accepted, what is staged, the next validator set -- is a
+\* function of the block (and the state it is executed on) alone, whatever queries the replica serves meanwhile
+OutcomeFromBlockAlone ==
+  [][ last'.op \in {"Exec", "ExecQ"} =>
+        LET r == last'.r
+            k == rep[r].h + 1
+        IN /\ last'.out = (IF chain[k].ok THEN "ok" ELSE "endBlockError")
+           /\ (chain[k].ok => rep'[r].h = k /\ rep'[r].vals = chain[k].vals) ]_vars
 
 \* replicas at the same height report the same validator set for the next height: the one the chain defines
 UniformApplication ==
